@@ -112,6 +112,8 @@ enum Step {
 	Enact,
 	Clean,
 	Reopen,
+	/// process crash (directory copied while the handle is open) + open of the copy; generated only with nothing queued
+	Crash,
 	Lock(usize),
 	Unlock(usize),
 }
@@ -296,7 +298,21 @@ fn gen_case(rng: &mut Rng) -> Case {
 					steps.push(Step::Unlock(k));
 				}
 				zombies.clear();
-				steps.push(Step::Reopen);
+				if rng.chance(1, 2) {
+					// everything committed so far gets logged (nothing is locked any more: at most a
+					// few rounds of deferral), then the process dies before - or half way through -
+					// the enactment
+					let pending = steps.iter().rev().take_while(|s| !matches!(s, Step::Reopen | Step::Crash)).filter(|s| matches!(s, Step::Commit(_))).count();
+					for _ in 0..2 * pending + 2 {
+						steps.push(Step::Process);
+					}
+					if rng.chance(1, 2) {
+						steps.push(Step::Flush);
+					}
+					steps.push(Step::Crash);
+				} else {
+					steps.push(Step::Reopen);
+				}
 			},
 		}
 	}
@@ -404,6 +420,7 @@ fn case_tokens(c: &Case) -> Vec<u64> {
 			Step::Enact => t.push(4),
 			Step::Clean => t.push(5),
 			Step::Reopen => t.push(6),
+			Step::Crash => t.push(7),
 			Step::Lock(k) => t.extend_from_slice(&[9, *k as u64]),
 			Step::Unlock(k) => t.extend_from_slice(&[10, *k as u64]),
 		}
@@ -525,6 +542,7 @@ pub fn main(args: &[String]) -> i32 {
 		let case = gen_case(&mut rng);
 		let toks = case_tokens(&case);
 		out.case(&toks);
+		crate::util::watch_begin(&out, &toks);
 		let _ = std::fs::remove_dir_all(&dir);
 		let opts = options(&dir, &case);
 		let mut obs: Vec<u64> = Vec::new();
@@ -631,6 +649,22 @@ pub fn main(args: &[String]) -> i32 {
 						drop(db.take());
 						db = Some(Db::open(&opts).expect("reopen"));
 					},
+					Step::Crash => {
+						guards.clear();
+						// the image: every file as the page cache holds it right now
+						let img = dir.with_extension("img");
+						let _ = std::fs::remove_dir_all(&img);
+						std::fs::create_dir_all(&img).unwrap();
+						for e in std::fs::read_dir(&dir).unwrap().flatten() {
+							if e.file_name() != "lock" {
+								std::fs::copy(e.path(), img.join(e.file_name())).unwrap();
+							}
+						}
+						drop(db.take());
+						std::fs::remove_dir_all(&dir).unwrap();
+						std::fs::rename(&img, &dir).unwrap();
+						db = Some(Db::open(&opts).expect("open of the crash image"));
+					},
 					Step::Lock(k) =>
 						if let Ok(Some(reader)) = d.get_tree(0, &root_key(*k)) {
 							let lock = std::sync::Arc::new(TreeLock::new(reader));
@@ -653,7 +687,7 @@ pub fn main(args: &[String]) -> i32 {
 					}
 				}
 				let entries = d.get_num_column_value_entries(0).unwrap_or(0xeeee);
-				if matches!(s, Step::Reopen) {
+				if matches!(s, Step::Reopen | Step::Crash) {
 					line.push(if count_observable(&case) { entries } else { 0xffff });
 				}
 				// ---- oracle
@@ -688,7 +722,7 @@ pub fn main(args: &[String]) -> i32 {
 				let nothing_queued_unknown = true;
 				if nothing_queued_unknown {
 					for k in 0..case.nkeys {
-						let got = line[line.len() - case.nkeys - if matches!(s, Step::Reopen) { 1 } else { 0 } + k];
+						let got = line[line.len() - case.nkeys - if matches!(s, Step::Reopen | Step::Crash) { 1 } else { 0 } + k];
 						let want = kvspec[k].map(|v| v + 1).unwrap_or(0);
 						if got != want {
 							fail(&mut verdict, format!("deferral-reorder step {si} plain key {k}: expected {want:#x} got {got:#x} (a postponed removal must not change the outcome of other writes)"));
@@ -696,14 +730,14 @@ pub fn main(args: &[String]) -> i32 {
 					}
 				}
 				// (e) after a reopen with every tree dereferenced the column is empty
-				if matches!(s, Step::Reopen) && spec.iter().all(|x| x.is_none()) && !case.append_only {
+				if matches!(s, Step::Reopen | Step::Crash) && spec.iter().all(|x| x.is_none()) && !case.append_only {
 					let n = entries;
 					if n != 0 {
 						let cls = if f4_exposed { "deferral-reorder" } else if count_observable(&case) { "entries-after-all-deref" } else { "entries-leak-after-rejected-insert" };
 						fail(&mut verdict, format!("{cls} step {si}: {n} value entries remain although every tree was dereferenced"));
 					}
 				}
-				prev_obs = Some(if matches!(s, Step::Reopen) { line[..line.len() - 1].to_vec() } else { line.clone() });
+				prev_obs = Some(if matches!(s, Step::Reopen | Step::Crash) { line[..line.len() - 1].to_vec() } else { line.clone() });
 				obs.extend(line);
 			}
 			drop(guards);
@@ -713,6 +747,7 @@ pub fn main(args: &[String]) -> i32 {
 			let m = e.downcast_ref::<String>().cloned().or_else(|| e.downcast_ref::<&str>().map(|s| s.to_string())).unwrap_or_default();
 			fail(&mut verdict, format!("panic {}", m.chars().take(160).collect::<String>()));
 		}
+		crate::util::watch_end();
 		out.obs(&obs);
 		match verdict {
 			Ok(()) => oracle.push_str("ok\n"),
